@@ -41,7 +41,8 @@ META = {
         "against the sources on every run; the table handler is followed through its helper methods); the two dispatch loops hand every child exactly "
         "once, in order, to the handler selected by its own type or warn (helper methods, hoisted keys and .get idioms are followed). "
         "R2 nesting, by path counting on the CFG of every render method and of the helpers it reaches (self.m(), getattr(self, TABLE[k])(), Class.m(), module functions): "
-        "(a) each docutils node that is constructed and bound to a name is attached exactly once on every normal path (helper attachment is a computed summary); "
+        "(a) each docutils node that is constructed and bound to a name is attached exactly once on every normal path (helper attachment is a computed summary; `return n` hands an unattached node to the caller, "
+        "a helper that attaches the node it returns hands out a reference that must not be attached again); "
         "(b) every container handler renders the token's children exactly once; a path that renders none is accepted only if it reports conditionally, or if the branch "
         "condition that selects it implies that the link is implicit (token.info == 'auto' or no children) - decided by a truth table after unfolding locals, `is None` tests, "
         "parameters through their call sites and predicate helpers through their return statements; (c) per-child loops, pop-bindings and helpers that take a sequence of "
@@ -51,7 +52,7 @@ META = {
         "(g) nothing in the render scope removes nodes from a tree handed in by the caller or from the renderer's own nodes, unless the name was rebound to a deepcopy on every path. "
         "R3 content: the text of text, inline code, code block, fence, math and raw HTML leaves is exactly token.content (def-use chain, extracted helpers followed); the code highlighter "
         "feeds the lexer the text it was given and appends every fragment once; refuri/refname/uri/reftarget derive from token.attrGet('href'/'src') (backward slice through locals, "
-        "parameters and helpers); a destination that receives only one part of a split href must have the remainder stored on the same node (download_reference excepted); image alt is "
+        "parameters and helpers); an inventory link's refuri is computed from the inventory match (assumed, recognised by role: result of get_inventory_matches or an InvMatch parameter); a destination that receives only one part of a split href must have the remainder stored on the same node (download_reference excepted); image alt is "
         "the text of the image token's children, agrees per token type with markdown-it's reference renderInlineAsText and visits nested inline nodes in source order (recursion or an "
         "order-preserving work list); the ordered-list start reaches the node for every legal start including 0 (decision table of the guards and the stored value), copy_attributes never "
         "tests the truthiness of a value it copies; the code language derives from token.info; no output-format encoder (escapeHtml, html.escape ...) lies between the href/src and the stored destination; the fragments of the library lexer add up to the code text, checked as two facts read off the docutils/pygments sources: "
@@ -62,7 +63,7 @@ META = {
         "R5 back ends: renderer subclasses override only link/math methods and add no handler; create_md_parser's renderer argument reaches only MarkdownIt(renderer_cls=...) and no condition; both "
         "front ends render with create_md_parser(config, <DocutilsRenderer class>) of the document being parsed - directly, through a helper returning a fresh parser, or through a cache whose key covers "
         "every configuration field create_md_parser reads. "
-        "R6: update_section_level_state records the section under its level, picks the parent among exactly the strictly shallower levels and removes exactly the deeper levels "
+        "R6: update_section_level_state records the section under its level, picks the parent among exactly the strictly shallower levels and removes exactly the deeper levels (if the level is stored after the pruning, the filter may drop the level itself) "
         "(decision table of the filter over key - level, or linear form of the range bounds; a constant bound is accepted only if no call site adds an unbounded term such as self._heading_offset to the level). Only normal control flow is judged (exception handlers are C01's subject)."
     ),
     "not_decided": (
@@ -3575,6 +3576,11 @@ def mutants(corpus: Corpus):
     add("c02-cell-content-dropped", "C02.R2", base, _call_stmt(f, "self.render_children(child)"), "pass", "render_table|children")
     f = sph.func("SphinxRenderer._process_wrap_node")
     add("c02-sphinx-inner-node-not-attached", "C02.R2", sph, _call_stmt(f, "wrap_node.append(inner_node)"), "pass", "inner_node")
+    f = sph.func("SphinxRenderer.add_math_target")
+    rt = find_node(f, lambda n: isinstance(n, ast.Return))
+    if rt is not None:
+        ind = indent_of(f, rt)
+        add("c02-helper-attaches-and-caller-attaches-again", "C02.R2", sph, rt, f"self.current_node.append(target)\n{ind}" + _seg(sph, rt), "more than once")
     f = base.func(R + "render_field_list")
     add("c02-field-body-not-attached", "C02.R2", base, _call_stmt(f, "field += field_body"), "pass", "field_body")
     f = base.func(R + "update_section_level_state")
